@@ -36,6 +36,10 @@ type PEntry struct {
 	MTime  time.Time
 	Size   int64
 	SHA256 string
+	// Origin is the configured entry type the entry came from (tree members as tree-<kind>);
+	// ModeFrom says where Mode comes from: explicit | source | default.
+	Origin   string
+	ModeFrom string
 }
 
 // PlanResult is the model's verdict for one list.
@@ -148,15 +152,15 @@ func Plan(list []Entry, packager string, umask os.FileMode, pkgMTime time.Time, 
 			add(PEntry{Dst: dst, Kind: "symlink", Src: n.Target, Owner: o, Group: g, MTime: firstTime(e.MTime, pkgMTime, n.MTime)}, idx)
 			return
 		}
-		mode := e.Mode
+		mode, from := e.Mode, "explicit"
 		if mode == 0 {
-			mode = UnixMode(n.Mode) &^ umask
+			mode, from = UnixMode(n.Mode)&^umask, "source"
 		}
 		kind := e.Type
 		if kind == "" || kind == "tree" {
 			kind = "file"
 		}
-		add(PEntry{Dst: dst, Kind: kind, Src: n.Rel, Owner: o, Group: g, Mode: mode,
+		add(PEntry{Dst: dst, Kind: kind, Src: n.Rel, Owner: o, Group: g, Mode: mode, ModeFrom: from,
 			MTime: firstTime(e.MTime, pkgMTime, n.MTime), Size: int64(len(n.Data)), SHA256: n.SHA256()}, idx)
 	}
 
@@ -167,11 +171,11 @@ func Plan(list []Entry, packager string, umask os.FileMode, pkgMTime time.Time, 
 		switch e.Type {
 		case "dir":
 			o, g := owner(e)
-			mode := e.Mode
+			mode, from := e.Mode, "explicit"
 			if mode == 0 {
-				mode = 0o755
+				mode, from = 0o755, "default"
 			}
-			add(PEntry{Dst: asDir(NormPath(e.Dst)), Kind: "dir", Owner: o, Group: g, Mode: mode, MTime: firstTime(e.MTime, pkgMTime)}, idx)
+			add(PEntry{Dst: asDir(NormPath(e.Dst)), Kind: "dir", Owner: o, Group: g, Mode: mode, ModeFrom: from, MTime: firstTime(e.MTime, pkgMTime)}, idx)
 		case "symlink":
 			if NormPath(e.Dst) == "/" {
 				return PlanResult{Unclear: "non-directory at /"}
@@ -213,14 +217,18 @@ func Plan(list []Entry, packager string, umask os.FileMode, pkgMTime time.Time, 
 				}
 				return UnixMode(n.Mode) &^ umask
 			}
+			dfrom := "source"
+			if e.Mode != 0 {
+				dfrom = "explicit"
+			}
 			base := NormPath(e.Dst)
-			add(PEntry{Dst: asDir(base), Kind: "dir", Owner: o, Group: g, Mode: dirMode(root), MTime: root.MTime}, idx)
+			add(PEntry{Dst: asDir(base), Kind: "dir", Owner: o, Group: g, Mode: dirMode(root), ModeFrom: dfrom, MTime: root.MTime}, idx)
 			for _, n := range t.Below(root.Rel) {
 				rel := strings.TrimPrefix(n.Rel, root.Rel+"/")
 				dst := NormPath(base + "/" + rel)
 				switch n.Kind {
 				case "dir":
-					add(PEntry{Dst: asDir(dst), Kind: "dir", Owner: o, Group: g, Mode: dirMode(n), MTime: n.MTime}, idx)
+					add(PEntry{Dst: asDir(dst), Kind: "dir", Owner: o, Group: g, Mode: dirMode(n), ModeFrom: dfrom, MTime: n.MTime}, idx)
 				case "symlink":
 					add(PEntry{Dst: dst, Kind: "symlink", Src: n.Target, Owner: o, Group: g, MTime: firstTime(pkgMTime, n.MTime)}, idx)
 				default:
@@ -299,7 +307,9 @@ func Plan(list []Entry, packager string, umask os.FileMode, pkgMTime time.Time, 
 	// parent closure + an entry beneath a non-directory
 	result := map[string]PEntry{}
 	for k, ps := range byPath {
-		result[k] = ps[0].e
+		e := ps[0].e
+		e.Origin = origin(list, ps[0])
+		result[k] = e
 	}
 	var allKeys []string
 	for k := range byPath {
@@ -318,7 +328,7 @@ func Plan(list []Entry, packager string, umask os.FileMode, pkgMTime time.Time, 
 				}
 				continue
 			}
-			result[anc] = PEntry{Dst: anc + "/", Kind: "implicit dir", Owner: "root", Group: "root", Mode: 0o755, MTime: pkgMTime}
+			result[anc] = PEntry{Dst: anc + "/", Kind: "implicit dir", Owner: "root", Group: "root", Mode: 0o755, MTime: pkgMTime, Origin: "implied", ModeFrom: "default"}
 		}
 	}
 	out := make([]PEntry, 0, len(result))
